@@ -14,7 +14,7 @@
    ([erasable]) are faces whose erased cells look like printed spaces. *)
 From Coq Require Import List NArith Bool Arith.
 From SNT Require Import Render.Cell Render.Screen Render.Frame Render.Domain Render.Spec
-  Render.GridLemmas Render.ExecProofs Render.Den Render.ShowProofs Render.HistoryProofs Render.Loop Render.LoopProofs.
+  Render.GridLemmas Render.ExecProofs Render.Den Render.ShowProofs Render.HistoryProofs Render.Loop Render.LoopProofs Render.IdleProofs.
 Import ListNotations.
 
 (* what [show] means, cell by cell: under an image a blank in the image's face, behind a wide
@@ -88,6 +88,14 @@ Theorem C01_clear_then_frame : forall o h w st scr s,
   let scr' := exec_list o scr1 (fst (frame o (rdraw (snd (rclear st)) s))) in
   sgrid scr' = sgrid (show o h w s) /\ err scr' = false.
 Proof. exact clear_then_frame. Qed.
+
+(* IDLE FRAME: when the drawn surface (glyphs resolved) is what the back buffer holds and no repaint is
+   forced, frame() issues no command at all - for every surface whatsoever (overlapping objects,
+   characters under images included), so an unchanged screen is never touched *)
+Theorem C01_idle_frame : forall o h w old front,
+  gdims front h w -> gdims old h w -> gmap (resolve o) front = old ->
+  fst (frame o (mkrstate h w front old (gmake h w MEmpty))) = [].
+Proof. exact idle_frame. Qed.
 
 (* RENDER LOOP with frame dropping (Terminal::run_render and its output queue, Render/Loop.v): the
    handler draws, then either frame(), or - when frames_pending() exceeds TERMINAL_FRAMES_DROP
